@@ -453,7 +453,9 @@ def check_hillclimber(prog, rep, mod, cname):
                     rep.violate("R2-truthful", construct, "accepting an exchange stores %s = %s, not the proposal's %s: later proposals of the scan are compared with a stale value"
                                 % (bb, sets.get(bb), pp), where(f, inner), pp, str(sets.get(bb)))
                     good = False
-    if acc_paths < 2:
+    ifs_ = [s_ for s_ in inner.body if isinstance(s_, ast.If)]
+    merged = len(ifs_) == 1 and not ifs_[0].orelse and isinstance(ifs_[0].test, ast.BoolOp) and isinstance(ifs_[0].test.op, ast.Or) and len(ifs_[0].test.values) == 2
+    if acc_paths < 2 and not (merged and acc_paths == 1):
         rep.unrec("R3-swaps", construct, "expected two acceptance branches (smaller violation; equal violation and smaller score)")
         good = False
     # acceptance conditions (lexicographic)
@@ -467,8 +469,12 @@ def check_hillclimber(prog, rep, mod, cname):
         o = oriented(t, lambda e: dump(e).startswith("prop_"))
         return dump(o if o is not None else t)
     if len(ifs) == 1:
-        t1 = _nt(ifs[0].test)
-        t2 = _nt(ifs[0].orelse[0].test) if ifs[0].orelse and isinstance(ifs[0].orelse[0], ast.If) else None
+        if merged:
+            # one branch for `A or (B and C)`: the two acceptance cases written as one test with one body
+            t1, t2 = _nt(ifs[0].test.values[0]), _nt(ifs[0].test.values[1])
+        else:
+            t1 = _nt(ifs[0].test)
+            t2 = _nt(ifs[0].orelse[0].test) if ifs[0].orelse and isinstance(ifs[0].orelse[0], ast.If) else None
         if t1 != "prop_cv < best_cv" or t2 not in ("prop_cv == best_cv and prop_score < best_score",):
             rep.violate("R3-swaps", construct, "acceptance is (%s) / (%s), not lexicographic (violation <) then (violation == and score <)" % (t1, t2), where(f, ifs[0]),
                         "prop_cv < best_cv | prop_cv == best_cv and prop_score < best_score", "%s | %s" % (t1, t2))
